@@ -556,6 +556,24 @@ def do_recreate():
     }
 
 
+def autodir():
+    """a target whose directory is made by its own script (the rule is default.do one level up): the candidates inside the
+    directory that does not exist yet (sub/t.do, sub/default.do) are dependencies like any other missing candidate - creating
+    one later rebuilds the target with it"""
+    mk = {'op': 'mkdirp', 'args': [], 'ch': '', 'rc': 0}
+    return {
+        'name': 'autodir',
+        'plain': ['s', 'sub/t'],
+        'rules': {'default.do': [{'sub/t': [mk, ifchange('s'), out('stdout', 's')]}],
+                  'sub/t.do': [{'sub/t': [ifchange('s'), out('stdout', 's')]}],
+                  'sub/default.do': [{'sub/t': [ifchange('s'), out('file', 's')]}]},
+        'init': ['s', 'default.do'],
+        'cmds': [('ifchange', ['sub/t'], False)],
+        'user': [], 'rm': [], 'doedits': ['sub/t.do', 'sub/default.do'],
+        'bounds': (5, 3),
+    }
+
+
 def fail_diamond():
     """two requesters of one failing target, plus an independent one"""
     return {
@@ -1013,7 +1031,7 @@ def crash_family(window=False, stamp_window=False):
     return out_
 
 
-FAMILY_DEEP = [stamp_layers, stamp_static, stamp_override, override_rm_q, stamp_diamond, stamp_chain2, override3, subdirs_cwd, alias_prog, fail_kinds, ifcreate_link, symlink_prog, symlink_stamped, nodir_prog, always2, fail_diamond, override2, stamp_toggle, stamped_deep, ifcreate_deep, do_recreate, subdirs, fan_shared, fail_memo]
+FAMILY_DEEP = [autodir, stamp_layers, stamp_static, stamp_override, override_rm_q, stamp_diamond, stamp_chain2, override3, subdirs_cwd, alias_prog, fail_kinds, ifcreate_link, symlink_prog, symlink_stamped, nodir_prog, always2, fail_diamond, override2, stamp_toggle, stamped_deep, ifcreate_deep, do_recreate, subdirs, fan_shared, fail_memo]
 
 
 def deep_programs():
